@@ -131,6 +131,10 @@ SameLen(V, O) == Len(O.stories) = Len(V.stories)
 
 ObsTotal(O) == O.raised = <<>>
 
+(* absent data yields None - and data the document determines yields a    *)
+(* value (whatever C16 says about which value)                            *)
+NoneAgrees(exp, got) == exp = Any \/ ((exp = Nil) <=> (got = Nil))
+
 (* C15: listed in document order with the ids and slugs of the XML        *)
 ObsAgree(V, O) ==
   /\ SameLen(V, O)
@@ -138,6 +142,15 @@ ObsAgree(V, O) ==
         /\ O.stories[i].id = V.stories[i].id
         /\ O.stories[i].slug = V.stories[i].slug
         /\ O.stories[i].items = V.stories[i].items
+  /\ (V.exact /\ \A i, j \in DOMAIN V.stories : i # j => V.stories[i].id # V.stories[j].id) =>
+        /\ NoneAgrees(RoDuration(V.stories), O.ro.duration)
+        /\ NoneAgrees(RoStart(V), O.ro.start)
+        /\ NoneAgrees(RoEnd(V), O.ro.end_)
+        /\ \A i \in DOMAIN V.stories :
+              /\ NoneAgrees(Dur(V.stories[i]), O.stories[i].duration)
+              /\ NoneAgrees(Offset(V.stories, i), O.stories[i].offset)
+              /\ NoneAgrees(Start(V, i), O.stories[i].start)
+              /\ NoneAgrees(End(V, i), O.stories[i].end_)
 
 (* offsets are defined per story; running orders with repeated story ids *)
 (* are outside the premise of C16                                         *)
